@@ -45,3 +45,5 @@ double strtod(const char *s, char **end) {
     return nondet_double();
 }
 float strtof(const char *s, char **end) { return (float) strtod(s, end); }
+#include <stdlib.h>
+char *strndup(const char *s, size_t n) { size_t l = strnlen(s, n), i; char *r = malloc(l + 1); if (!r) return 0; for (i = 0; i < l; i++) r[i] = s[i]; r[l] = 0; return r; }
